@@ -79,7 +79,7 @@ impl Prop for C20 {
     }
     fn assumptions(&self) -> Vec<String> {
         vec![
-            "'promptly' = run returns within 1 virtual second of the signal".into(),
+            "'promptly' = run returns within 1 virtual second of the signal; the sender of the shutdown channel stays alive until the scenario ends (the server must stop because a signal was sent, not because its sender was dropped)".into(),
             "a response is owed to a request whose last byte was sent at least 100 virtual ms before the signal on a connection that was open then; connections accepted after the flag is set may be dropped".into(),
             "a response that has started to arrive must arrive completely (the simulation keeps running the detached workers)".into(),
             "this phase is the threaded runtime (mpsc shutdown receiver); the tokio runtime (CancellationToken) is exercised by the twin phase C20T of the same check".into(),
@@ -166,7 +166,9 @@ impl Prop for C20 {
                 (Tx::A(t), r)
             };
             let app = app.with_shutdown(rx);
-            let send_signal = move |meta: &Arc<Mutex<(u64, Option<u64>, bool, Option<String>)>>| {
+            // (the sender is handed back and kept alive until the scenario ends: a server must stop
+            // because a signal was SENT, not because its sender went away afterwards)
+            let send_signal = move |meta: &Arc<Mutex<(u64, Option<u64>, bool, Option<String>)>>| -> Tx {
                 meta.lock().unwrap().0 = sim::now_ns();
                 match &tx {
                     Tx::A(t) => {
@@ -176,6 +178,7 @@ impl Prop for C20 {
                         let _ = t.send(());
                     }
                 }
+                tx
             };
             // a rendezvous send before run is called would block the caller forever (nobody
             // receives yet): send it from a helper thread, as a signal handler would
@@ -186,7 +189,7 @@ impl Prop for C20 {
                 if !before {
                     humsim::thread::sleep(Duration::from_millis(signal_ms));
                 }
-                send_signal(&signaller_meta);
+                send_signal(&signaller_meta)
             });
             if before {
                 // let the signal be sent (or be pending at the rendezvous) before run starts
@@ -281,7 +284,7 @@ impl Prop for C20 {
                     o.done = true;
                 }));
             }
-            let _ = signaller.join();
+            let sender_kept_alive = signaller.join();
             // wait (bounded) for run to return after the signal
             let mut waited = 0;
             while !runner.is_finished() && waited < 10_000 {
@@ -302,6 +305,7 @@ impl Prop for C20 {
             for h in hs {
                 let _ = h.join();
             }
+            drop(sender_kept_alive);
         });
         rr.absorb(&outcome);
         let (t_sig, t_ret, run_ok, rebind) = meta.lock().unwrap().clone();
